@@ -4,6 +4,7 @@ property theorems and non-vacuity examples live here; helper lemmas are in
 `Golib/Proof/C19*.lean`.
 -/
 import Golib.Proof.C19Fill
+import Golib.Proof.C19Rec
 import Golib.Gen.FactsC19
 
 namespace Golib.C19
@@ -13,7 +14,9 @@ the order in the current source — `add` = send then `Add(1)`; `done` = `Done()
 receive; `Go` = `add()` then `go Recover(fn, l.panicHandler, l.done)`; `Recover` = the
 outer deferred function (recover → handler; cleanups under an inner deferred recover)
 registered before `fn()`; `NewLimiter` = `limit < 1 → 3`, channel capacity `limit`;
-untimed `Wait` = `l.w.Wait()`. -/
+untimed `Wait` = `l.w.Wait()`; `Wait(d)` = a helper goroutine blocked in `l.w.Wait()` that
+signals a private buffered channel, and a `select` on that channel and `time.After(d)` —
+no operation on `l.c`, no `Add`/`Done` (the machine's `waitTimed` step is the identity). -/
 theorem c19_facts :
     Gen.C19.extractorOK = true ∧
     Gen.C19.limiterFields = ["c:chanstruct{}", "w:sync.WaitGroup", "panicHandler:func(any)"] ∧
@@ -24,8 +27,10 @@ theorem c19_facts :
     Gen.C19.recoverBody =
       ["defer{if(p:=recover();p!=nil){if(panicFn!=nil){panicFn(p)}else{var buf; buf.Grow(…); buf.WriteString(…); stack(…); fmt.Println(…)}}; if(len(cleanups)==0){return}; var index; defer{if(p:=recover();p!=nil){s:=fmt.Sprintf(…); if(panicFn!=nil){panicFn(s)}else{fmt.Println(…)}}}; range(i,cleanup:cleanups){index=i; cleanup()}}",
        "fn()"] ∧
-    Gen.C19.waitUntimedTail = "l.w.Wait()" :=
-  ⟨rfl, rfl, rfl, rfl, rfl, rfl, rfl, rfl⟩
+    Gen.C19.waitUntimedTail = "l.w.Wait()" ∧
+    Gen.C19.waitTimedBody =
+      ["if(len(waitTime)>0){quit:=make(chanstruct{},1); go func(chchan<-struct{}){l.w.Wait()ch<-struct{}{}}(…); select{case recv quit:{} case recv time.After(waitTime[0]):{}}; return}"] :=
+  ⟨rfl, rfl, rfl, rfl, rfl, rfl, rfl, rfl, rfl⟩
 
 /-- `NewLimiter(limit)`: a limit below 1 falls back to 3. -/
 theorem c19_default_limit (limit : Int) :
@@ -96,6 +101,72 @@ theorem c19_handler (limit : Int) (s : St) (h : Reachable limit s) :
        | .panic v => if 6 ≤ t.pc.rank then [.val v] else []) := by
   intro t ht
   exact ((Inv.of_reachable h).htasks t ht).handled
+
+/-- `c19_wait_timeout_preserves_bound`: a `Wait(d)` call (d > 0) that returns — because
+the Limiter became idle or because `d` expired while functions are still running — changes
+nothing: inserting it anywhere into any schedule leads to the same state as the schedule
+without it.  Hence every theorem of this file holds verbatim for histories that contain
+any number of timed waits (they quantify over all `Reachable` states, and `waitTimed` is a
+label); spelled out for the bound: after an expired `Wait(d)` and any further submissions,
+still `#inside ≤ k ≤ n`. -/
+theorem c19_wait_timeout_preserves_bound (limit : Int) (before after : List Label) (s : St)
+    (h : (newLimiter limit).run (before ++ Label.waitTimed :: after) = some s) :
+    (newLimiter limit).run (before ++ after) = some s ∧
+    s.running ≤ s.k ∧ s.k ≤ s.n ∧ s.n = limitOf limit := by
+  have hb := c19_bound limit s ⟨_, h⟩
+  refine ⟨?_, hb.1, hb.2.1, hb.2.2.1⟩
+  rw [run_append] at h ⊢
+  cases hr : (newLimiter limit).run before with
+  | none => rw [hr] at h; cases h
+  | some s₁ =>
+    rw [hr] at h
+    simpa [St.run, St.step] using h
+
+/-- Non-vacuity: limit 1, task 0 inside its function, a timed wait expires, task 1 is
+submitted and stays blocked before its send (`new`): one function inside, one token. -/
+example : ∃ s, (newLimiter 1).run [.submit .ok, .adv 0, .adv 0, .adv 0, .adv 0, .waitTimed,
+      .submit .ok] = some s ∧ s.running = 1 ∧ s.k = 1 ∧ s.adv 1 = none := by
+  refine ⟨_, rfl, ?_⟩
+  decide
+
+/-- `c19_recover` (the exported `Recover(fn, panicFn, cleanups...)` used directly; anchor
+"converts a panic into a handler call and then runs the cleanups even if a cleanup
+panics"), for every outcome of `fn` and every list of cleanups:
+(1) the handler gets the value of `fn`'s panic first — exactly when `fn` panicked;
+(2) if no cleanup panics, every cleanup is called once, in order, and the handler gets
+    nothing else — in particular after a panic of `fn` (the slot is given back);
+(3) if cleanup number `k` is the first that panics (with `w`), the cleanups `0..k` have
+    been called, the handler additionally gets "cleanup panic: w, index: k", and the
+    cleanups after `k` are NOT called;
+`Recover` returns normally in all cases (`recoverRun` is total: no panic escapes). -/
+theorem c19_recover (fn : Outcome) :
+    (∀ cl, ∃ rest, (recoverRun fn cl).handled =
+        (match fn with | .ok => [] | .panic v => [RVal.val v]) ++ rest ∧ rest.length ≤ 1) ∧
+    (∀ cl, (∀ c ∈ cl, c = Outcome.ok) →
+        (recoverRun fn cl).ran = List.range cl.length ∧
+        (recoverRun fn cl).handled = (match fn with | .ok => [] | .panic v => [RVal.val v])) ∧
+    (∀ pre w post, (∀ c ∈ pre, c = Outcome.ok) →
+        (recoverRun fn (pre ++ Outcome.panic w :: post)).ran = List.range (pre.length + 1) ∧
+        (recoverRun fn (pre ++ Outcome.panic w :: post)).handled =
+          (match fn with | .ok => [] | .panic v => [RVal.val v]) ++ [RVal.cleanupPanic w pre.length]) := by
+  cases fn <;> refine ⟨fun cl => ?_, fun cl h => ?_, fun pre w post h => ?_⟩
+  all_goals first
+    | (refine ⟨_, rfl, ?_⟩; cases (runCleanups 0 cl).2 <;> simp)
+    | simp [recoverRun, runCleanups_all_ok 0 cl h]
+    | simp [recoverRun, runCleanups_split 0 pre w post h]
+
+/-- `Limiter.Go` is `Recover(fn, handler, l.done)`; `l.done` never panics
+(`c19_no_leak` (2)), so the one cleanup always runs and the handler gets exactly the
+panic value — the `recovering → cleanup → wgDone → exited` path of the machine. -/
+theorem c19_recover_limiter_instance (fn : Outcome) :
+    (recoverRun fn [.ok]).ran = [0] ∧
+    (recoverRun fn [.ok]).handled = (match fn with | .ok => [] | .panic v => [RVal.val v]) := by
+  cases fn <;> exact ⟨rfl, rfl⟩
+
+/-- Non-vacuity: `fn` panics with 5, cleanups ok / panic 7 / ok: handler gets 5 then the
+cleanup panic at index 1; cleanup 2 does not run. -/
+example : recoverRun (.panic 5) [.ok, .panic 7, .ok] =
+    { handled := [.val 5, .cleanupPanic 7 1], ran := [0, 1] } := by decide
 
 /-- Non-vacuity: a concrete reachable state with limit 1 — task 0 (panicking with 7) has
 exited and its value reached the handler, task 1 is inside its function, task 2 waits
